@@ -316,8 +316,30 @@ def _bworker(t):
     return judge_catalog(*t)
 
 
+def lemma_replayer(obl, model):
+    """a refuted loader obligation is replayed end-to-end with the model's unit constants on a synthetic catalogue"""
+    import fractions
+    cands = []
+    if model:
+        try:
+            b = float(fractions.Fraction(str(model.get('BoxSize', '37.5'))))
+            v = float(fractions.Fraction(str(model.get('VelZSpace_to_kms', '2917'))))
+            if b > 0 and v > 0:
+                cands.append((b, v))
+        except Exception:
+            pass
+    cands += [(37.5, 2917.0), (1.0, 0.5)]
+    for b, v in cands:
+        for cleaned in (False, True):
+            why = judge_catalog(7, b, v, cleaned)
+            if why:
+                return True, why
+    return False, 'no case reproduced'
+
+
 def check(run):
     run.level = 'proof'
+    run.replayers['lemma'] = lemma_replayer
     e2_proofs(run, run.repo)
     run.discharge()
     tasks = [(run.seed + 50 + k, box, velz, cleaned, ib) for k, (box, velz, ib) in enumerate([(37.5, 2917.0, False), (2000.0, 200000.0, False), (1.0, 0.37, False), (500.0, 1234.5, True)])
